@@ -215,10 +215,63 @@ class Runner:
                 return None
             return old_hook(ex) if old_hook else None
         self.w.net.hook = hook
+        spy = None
+        if op.get('race'):
+            # a report that arrives on another thread exactly while reload_all replays the buffered notifications:
+            # the notification thread has seen "initializing" and waits for the buffer lock that reload_all holds
+            import threading
+            runner = self
+            real = self.cm._buffered_notifications_lock
+            main = threading.get_ident()
+
+            class SpyLock:
+                def __init__(self):
+                    self.fired = False
+                    self.thread = None
+                    self.at_lock = threading.Event()
+
+                def __enter__(self):
+                    if threading.get_ident() != main:
+                        self.at_lock.set()
+                        real.acquire()
+                        return self
+                    real.acquire()
+                    if not self.fired and runner.cm._state.name == 'initializing':
+                        self.fired = True
+                        n0 = len(runner.stored)
+                        with runner.pm.metric_state_transaction() as tr:      # a commit newer than the GetMdib snapshot
+                            st = tr.get_state(op['race'])
+                            mdibrun.set_payload(st, 424242, runner.pm_types)
+                        fresh = runner.stored[n0:]
+                        runner.pending_seen |= set(id(e) for e in fresh)
+
+                        def deliver():
+                            for e in fresh:
+                                runner.inflight_delivered.append(runner.deliver(e))
+                        self.thread = threading.Thread(target=deliver)
+                        self.thread.start()
+                        self.at_lock.wait(5)
+                    return self
+
+                def __exit__(self, *a):
+                    real.release()
+
+                def acquire(self, *a, **k):
+                    self.__enter__()
+                    return True
+
+                def release(self):
+                    real.release()
+            spy = SpyLock()
+            self.cm._buffered_notifications_lock = spy
         try:
             self.cm.reload_all()
         finally:
             self.w.net.hook = old_hook
+            if spy is not None:
+                if spy.thread is not None:
+                    spy.thread.join(10)
+                self.cm._buffered_notifications_lock = real
 
     def real_handle(self, h):
         if h is None:
